@@ -5,14 +5,14 @@
 package node
 
 import (
-	"strings"
 	"bytes"
-	"os"
 	"context"
 	"errors"
 	"fmt"
+	"os"
 	"path/filepath"
 	"sort"
+	"strings"
 	"time"
 
 	commonmodels "github.com/lindb/common/models"
@@ -24,13 +24,13 @@ import (
 	"github.com/lindb/lindb/flow"
 	"github.com/lindb/lindb/kv"
 	"github.com/lindb/lindb/models"
-	"github.com/lindb/lindb/series/metric"
 	"github.com/lindb/lindb/pkg/option"
 	"github.com/lindb/lindb/pkg/timeutil"
 	protoCommonV1 "github.com/lindb/lindb/proto/gen/v1/common"
 	"github.com/lindb/lindb/query"
 	querycontext "github.com/lindb/lindb/query/context"
 	"github.com/lindb/lindb/rpc"
+	"github.com/lindb/lindb/series/metric"
 	"github.com/lindb/lindb/sql"
 	stmtpkg "github.com/lindb/lindb/sql/stmt"
 	"github.com/lindb/lindb/tsdb"
@@ -42,7 +42,6 @@ import (
 
 // Jan1 is the simulated "now" at the start of a run (the synctest epoch).
 const Jan1 = int64(946684800000)
-
 
 type Node struct {
 	C      *core.RunCtx
@@ -72,6 +71,10 @@ func Start(c *core.RunCtx, dir string) (*Node, error) {
 	}
 	n := &Node{C: c, Sim: c.Sim, Dir: dir, Engine: e}
 	n.Opt = &option.DatabaseOption{Intervals: option.Intervals{{Interval: timeutil.Interval(10 * 1000), Retention: timeutil.Interval(30 * 24 * 3600 * 1000)}}}
+	if c.Plan.C("late_writes", 0) == 1 {
+		// a database that accepts late data for three days and data from the future for an hour
+		n.Opt.Ahead, n.Opt.Behind = "1h", "3d"
+	}
 	return n, nil
 }
 
@@ -193,8 +196,8 @@ func (n *Node) WriteRouted(db string, shards int, pts []rows.Point, own ...func(
 
 // Layout of one query execution.
 type Layout struct {
-	Leaves       [][]int // partition of shard ids over leaf nodes
-	Intermediate bool    // route through one intermediate (broker) node
+	Leaves       [][]int              // partition of shard ids over leaf nodes
+	Intermediate bool                 // route through one intermediate (broker) node
 	Delay        func() time.Duration // transit time of the next response (nil = none)
 	// StrangerDB: one more leaf node which answers from this (never written) database whatever database the
 	// request names: a node that has never seen the metric
@@ -232,7 +235,7 @@ type fakeTaskMgr struct {
 }
 
 func (m *fakeTaskMgr) AddTask(id string, t querycontext.TaskContext) { m.tasks[id] = t }
-func (m *fakeTaskMgr) RemoveTask(id string)                           { delete(m.tasks, id) }
+func (m *fakeTaskMgr) RemoveTask(id string)                          { delete(m.tasks, id) }
 func (m *fakeTaskMgr) Receive(resp *protoCommonV1.TaskResponse, from string) error {
 	t := m.tasks[resp.RequestID]
 	if t == nil {
@@ -248,8 +251,10 @@ type fakeStateMgr struct {
 	choose              func(db string, n int) ([]*models.PhysicalPlan, error)
 }
 
-func (f *fakeStateMgr) Choose(db string, n int) ([]*models.PhysicalPlan, error) { return f.choose(db, n) }
-func (f *fakeStateMgr) GetDatabaseCfg(string) (models.Database, bool)          { return f.cfg, true }
+func (f *fakeStateMgr) Choose(db string, n int) ([]*models.PhysicalPlan, error) {
+	return f.choose(db, n)
+}
+func (f *fakeStateMgr) GetDatabaseCfg(string) (models.Database, bool) { return f.cfg, true }
 
 type pendingResp struct {
 	resp *protoCommonV1.TaskResponse
